@@ -71,4 +71,8 @@ def resample2 (m : Resampling) (Sr Sc Dr Dc : Axis) (img : ImgO) (jr jc : Int) :
   | .nearest => nearest2 Sr Sc Dr Dc img jr jc
   | .bilinear => bilinear2 Sr Sc Dr Dc img jr jc
 
+/-- `_get_resampling`: bringing an image with pixel area `fromArea` onto a grid with pixel area `toArea` uses the
+    down-sampling method (default `average`) iff the area does not shrink, else the up-sampling method -/
+def useDownsampling (fromArea toArea : Rat) : Bool := decide (fromArea ≤ toArea)
+
 end Homonim
